@@ -1100,17 +1100,17 @@ def oracle_sizemults(case):
 
 
 CLAUSES = [
-    Clause('reference', oracle_reference, reference_cases, quick=1400, thorough=24000,
+    Clause('reference', oracle_reference, reference_cases, quick=1200, thorough=24000,
            min_share={'nt': 0.04, 'frame_ok': 0.2, 'hcp': 0.01, 'mn_cyclic': 0.08},
            desc='rcell/uvws/transform/shifts and the reference system: the unit cell crystal rotated by transform, shifted, filling the box once'),
-    Clause('monopole', oracle_monopole, monopole_cases, quick=2000, thorough=36000,
+    Clause('monopole', oracle_monopole, monopole_cases, quick=1800, thorough=36000,
            min_share={'nt': 0.06, 'bd_mixed': 0.12, 'bd_cylinder': 0.06, 'bd_box': 0.06, 'center_scaled': 0.03, 'center_abs': 0.05,
                       'wrapped_along_line': 0.15},
            desc='monopole: all reference atoms kept, displaced by the solution at (reference position - centre), periodic along the line only, boundary atoms re-typed exactly outside the box / cylinder region'),
-    Clause('array', oracle_array, array_cases, quick=2000, thorough=36000,
+    Clause('array', oracle_array, array_cases, quick=1800, thorough=36000,
            min_share={'nt': 0.06, 'removed': 0.15, 'interior': 0.12, 'band': 0.07, 'linear': 0.06}, max_share={'refusal': 0.25},
            desc='periodic array: deletion count from the edge component, deleted atoms are duplicates, no overlap in-plane, old_id maps back, linear / solution displacement re-derived, pbc and box'),
-    Clause('disregistry', oracle_disregistry, disreg_cases, quick=1200, thorough=20000,
+    Clause('disregistry', oracle_disregistry, disreg_cases, quick=1000, thorough=20000,
            min_share={'nt': 0.05, 'tail': 0.12, 'exact_linear': 0.03, 'bookkeeping': 0.15, 'tripled': 0.01}, max_share={'refusal': 0.25},
            desc='disregistry across the slip plane accumulates to b up to the analytic tail bound (exactly b (x_hi-x_lo)/L for the linear field); error shrinks when the width is tripled'),
     Clause('sizemults', oracle_sizemults, sizemults_cases, quick=400, thorough=4000, min_share={'monopole': 0.1},
